@@ -412,6 +412,26 @@ def run_generic(ctx, res, skip=()):
                                             {"engine": "e1-scenario", "scenario": sc}))
 
 
+def run_storm_kinds(ctx, res, prefix, kinds, rounds_quick, rounds_thorough, jobs=4, jitter=0):
+    """a few storm rounds of the given kinds, findings reported under the calling property"""
+    import multiprocessing
+    from .. import storm
+    binary, hooks = ctx.binary()
+    sjobs = [(binary, hooks, s, jitter if hooks else 0, None, None, rounds_quick if ctx.quick else rounds_thorough, ctx.quick,
+              list(kinds)) for s in ctx.seeds(jobs, "storm-" + "-".join(kinds))]
+    with multiprocessing.Pool(jobs) as pool:
+        souts = pool.map(storm.worker, sjobs)
+    for o in souts:
+        res.evaluations += o["rounds"]
+        key = "storm_rounds_" + "_".join(kinds)
+        res.extra[key] = res.extra.get(key, 0) + o["rounds"]
+        for sig, detail in o["findings"]:
+            res.findings.append(Finding(prefix + sig, detail, {"engine": "storm"}))
+        if o["inconclusive"]:
+            res.inconclusive += 1
+            res.inconclusive_notes.append(o["inconclusive"])
+
+
 def run_rename_storms(ctx, res, prefix):
     """simultaneous renames of members of one channel to one nickname (half of them queued behind an OPER that holds the
     state lock): one winner, one announcement, everybody listed once under the nickname it now has"""
